@@ -12,7 +12,7 @@ from .flow import Engine
 
 # The model variant the real code is compared with: "00" = /repo as it is today;
 # after the two proposed fixes (docs/spsc.md) are applied to /repo, set this to "11".
-CFG = "00"
+CFG = "11"
 
 ARITY = {"ts": 0, "sd": 0, "tsb": 1, "sb": 1, "tsbm": 1, "sbm": 1, "cs": 0, "os": 0, "vs": 0, "ds": 0,
          "fs": 0, "fsb": 1, "fsbm": 1, "ps": 1, "xs": 0,
